@@ -84,6 +84,7 @@ let () = main_loop (fun w -> match w with
     let version = p_str () in
     let conn = (match next () with "none" -> None | s -> Some (cps_of_string s)) in
     let head = p_bool () in
+    let cclose = p_bool () in
     let err = (match next () with
       | "none" -> None
       | code -> let reason = p_str () in let body = p_str () in Some ((cps_of_string code, reason), body)) in
@@ -91,7 +92,7 @@ let () = main_loop (fun w -> match w with
     let a = p_app () in
     if !toks <> [] then failwith "trailing tokens";
     let c = { c_ident = ident; c_expose_tracebacks = expose; c_log_socket_errors = logsock; c_date = date; c_tb = tb } in
-    let r = { r_version = version; r_connection = conn; r_head = head; r_error = err } in
+    let r = { r_version = version; r_connection = conn; r_head = head; r_connection_close = cclose; r_error = err } in
     let o = run_task c r a disc in
     Printf.sprintf "w=%s close=%s next=%s closes=%d hand=%s esc=%s wh=%s s500=%s nws1=%d"
       (if o.o_writes = [] then "none" else String.concat "," (List.map s_item o.o_writes))
